@@ -153,16 +153,16 @@ impl Op {
 /// the lock set (with modes, sorted) this harness assumes each entry point takes; compared with the
 /// regenerated node table by the driver
 const CLASSES: &[(&str, &str)] = &[
-	("NetToChainAdapter::block_received", "chain.batch.W,chain.deny.R,chain.hidx.W,chain.hp.R,chain.hp.W,chain.orph.R,chain.orph.W,chain.ts.R,chain.ts.W,p2pPeers.R,p2pPeers.W,pool.W,reorg.R,reorg.W,secp.W,syncCur.R"),
-	("NetToChainAdapter::header_received", "chain.batch.W,chain.deny.R,chain.hp.W,chain.ts.W,p2pPeers.R,syncCur.R"),
-	("NetToChainAdapter::transaction_received", "chain.batch.W,chain.deny.R,chain.hp.R,chain.hp.W,chain.ts.R,chain.ts.W,dand.W,p2pPeers.R,p2pPeers.W,pool.W,reorg.W,secp.W,syncCur.R"),
-	("NetToChainAdapter::tx_kernel_received", "p2pPeers.R,pool.R,syncCur.R"),
+	("NetToChainAdapter::block_received", "chain.batch.W,chain.deny.R,chain.hidx.W,chain.hp.R,chain.hp.W,chain.orph.R,chain.orph.W,chain.ts.R,chain.ts.W,p2pPeers.R,p2pPeers.W,peerSend.W,peerStop.W,pool.W,reorg.R,reorg.W,secp.W,syncCur.R"),
+	("NetToChainAdapter::header_received", "chain.batch.W,chain.deny.R,chain.hp.W,chain.ts.W,p2pPeers.R,peerSend.W,syncCur.R"),
+	("NetToChainAdapter::transaction_received", "chain.batch.W,chain.deny.R,chain.hp.R,chain.hp.W,chain.ts.R,chain.ts.W,dand.W,p2pPeers.R,p2pPeers.W,peerSend.W,peerStop.W,pool.W,reorg.W,secp.W,syncCur.R"),
+	("NetToChainAdapter::tx_kernel_received", "p2pPeers.R,peerSend.W,pool.R,syncCur.R"),
 	("NetToChainAdapter::get_transaction", "pool.R"),
 	("NetToChainAdapter::locate_headers", "chain.hp.R"),
 	("NetToChainAdapter::total_difficulty", "-"),
 	("mine_block::get_block", "chain.batch.W,chain.deny.R,chain.hp.R,chain.hp.W,chain.ts.R,chain.ts.W,pool.R,secp.W"),
-	("dandelion_monitor::process_fluff_phase", "chain.batch.W,chain.deny.R,chain.hp.R,chain.hp.W,chain.ts.R,chain.ts.W,dand.R,dand.W,p2pPeers.R,p2pPeers.W,pool.W,reorg.W,secp.W"),
-	("dandelion_monitor::process_expired_entries", "chain.batch.W,chain.deny.R,chain.hp.R,chain.hp.W,chain.ts.R,chain.ts.W,dand.W,p2pPeers.R,p2pPeers.W,pool.W,reorg.W,secp.W"),
+	("dandelion_monitor::process_fluff_phase", "chain.batch.W,chain.deny.R,chain.hp.R,chain.hp.W,chain.ts.R,chain.ts.W,dand.R,dand.W,p2pPeers.R,p2pPeers.W,peerSend.W,peerStop.W,pool.W,reorg.W,secp.W"),
+	("dandelion_monitor::process_expired_entries", "chain.batch.W,chain.deny.R,chain.hp.R,chain.hp.W,chain.ts.R,chain.ts.W,dand.W,p2pPeers.R,p2pPeers.W,peerSend.W,peerStop.W,pool.W,reorg.W,secp.W"),
 	("PoolToNetAdapter::is_expired", "dand.R"),
 	("PoolToNetAdapter::next_epoch", "dand.W"),
 	("SyncState::status", "syncCur.R"),
@@ -170,7 +170,7 @@ const CLASSES: &[(&str, &str)] = &[
 	("SyncState::update_header_sync", "syncCur.W"),
 	("SyncState::update", "syncCur.W"),
 	("Chain::validate", "chain.batch.W,chain.deny.R,chain.hp.W,chain.ts.W"),
-	("ChainToPoolAndNetAdapter::block_accepted", "chain.batch.W,chain.hp.R,chain.hp.W,chain.ts.R,chain.ts.W,p2pPeers.R,p2pPeers.W,pool.W,reorg.R,reorg.W,secp.W"),
+	("ChainToPoolAndNetAdapter::block_accepted", "chain.batch.W,chain.hp.R,chain.hp.W,chain.ts.R,chain.ts.W,p2pPeers.R,p2pPeers.W,peerSend.W,peerStop.W,pool.W,reorg.R,reorg.W,secp.W"),
 ];
 
 struct Scenario {
@@ -560,9 +560,9 @@ fn main() {
 				}
 				_ => fails.push("head()/header_head() failed after the run".into()),
 			}
-			let v = n.chain.validate(true);
+			let v = n.chain.validate(false);
 			if v.is_err() {
-				fails.push(format!("validate(fast) after the run: {}", short(&v)));
+				fails.push(format!("full validation after the run: {}", short(&v)));
 			}
 			// the pool against the chain it ended on: the txpool aggregate must validate against the head
 			{
